@@ -11,12 +11,29 @@ From Twig Require Import Base.Bytes Model.Ast Model.ExprLexer Model.Parser Gen.P
 Definition pp_lv_postfix : nat := S prec_prefix.
 Definition pp_lv_simple : nat := S (S prec_prefix).
 Definition pp_bprec (o : binop) : nat := xp_get_prec (binop_str o).
+(* a variable followed by attributes and method calls: read by the name loop of parseSimpleExpression *)
+Fixpoint pp_is_chain (e : expr) : bool :=
+  match e with
+  | EVar _ => true
+  | EAttr b _ => pp_is_chain b
+  | EModCall b _ _ => pp_is_chain b
+  | _ => false
+  end.
+(* the printed form ends in a bare name chain that a following dot would extend (-a.b is -(a.b)) *)
+Fixpoint pp_dot_open (e : expr) : bool :=
+  match e with
+  | EVar _ => true
+  | EAttr b _ | EModCall b _ _ => pp_is_chain b
+  | EUn _ a => pp_dot_open a
+  | _ => false
+  end.
 Definition pp_level (e : expr) : nat :=
   match e with
   | ECond _ _ _ => 0
   | EBin o _ _ => pp_bprec o
   | ETest _ _ _ _ => prec_compare
   | EItem _ _ | EFilter _ _ _ => pp_lv_postfix
+  | EAttr b _ | EModCall b _ _ => if pp_is_chain b then pp_lv_simple else pp_lv_postfix
   | _ => pp_lv_simple
   end.
 
@@ -70,6 +87,10 @@ Definition pp_atomic (e : expr) : bool :=
 Fixpoint pp (px : expr -> bool) (e : expr) : list xtok :=
   let par (q : nat) (e' : expr) : list xtok :=
     if (pp_level e' <? q) || px e' then pp_P b#"(" :: pp px e' ++ [pp_P b#")"] else pp px e' in
+  (* the base of an attribute access that is not a name chain: an index, call, filter, literal or
+     parenthesis; a unary operator applied to a name chain needs parentheses here *)
+  let pdot (e' : expr) : list xtok :=
+    if (pp_level e' <? pp_lv_postfix) || px e' || pp_dot_open e' then pp_P b#"(" :: pp px e' ++ [pp_P b#")"] else pp px e' in
   let args (es : list expr) : list xtok :=
     pp_P b#"(" :: pp_join (pp_P b#",") (map (par 0) es) ++ [pp_P b#")"] in
   let oargs (es : list expr) : list xtok := match es with [] => [] | _ => args es end in
@@ -80,8 +101,8 @@ Fixpoint pp (px : expr -> bool) (e : expr) : list xtok :=
   | ELit (LInt z) => [XT XNumber (pp_dec (Z.to_N z))]
   | ELit (LStr s) => [XT XString (pp_escape s)]
   | EVar x => [pp_N x]
-  | EAttr b a => pp px b ++ [pp_P b#"."; pp_N a]
-  | EModCall m f es => pp px m ++ pp_P b#"." :: pp_N f :: args es
+  | EAttr b a => (if pp_is_chain b then pp px b else pdot b) ++ [pp_P b#"."; pp_N a]
+  | EModCall m f es => (if pp_is_chain m then pp px m else pdot m) ++ pp_P b#"." :: pp_N f :: args es
   | EItem b i => par pp_lv_postfix b ++ pp_P b#"[" :: par 0 i ++ [pp_P b#"]"]
   | EUn o a => pp_unop_tok o :: par pp_lv_simple a
   | EBin o l r => par (pp_bprec o) l ++ pp_binop_toks o ++ par (pp_bprec o + prec_right_incr) r
@@ -111,23 +132,14 @@ Definition pp_is_ident (x : bytes) : bool :=
   match x with c :: r => xl_ident_start c && forallb xl_ident_cont r | [] => false end.
 Definition pp_keywords : list bytes := [b#"true"; b#"false"; b#"null"; b#"nil"; b#"not"].
 Definition pp_name_ok (x : bytes) : bool := pp_is_ident x && negb (existsb (bytes_eqb x) pp_keywords).
-Fixpoint pp_is_chain (e : expr) : bool :=
-  match e with
-  | EVar _ => true
-  | EAttr b _ => pp_is_chain b
-  | EModCall b _ _ => pp_is_chain b
-  | _ => false
-  end.
-Definition pp_str_ok (s : bytes) : bool := negb (xl_last_bsl false s).
 
 Fixpoint pp_wf (e : expr) : bool :=
   match e with
   | ELit (LInt z) => (0 <=? z)%Z && (z <=? xp_max_int)%Z
-  | ELit (LStr s) => pp_str_ok s
   | ELit _ => true
   | EVar x => pp_name_ok x
-  | EAttr b a => pp_is_chain b && pp_wf b && pp_is_ident a
-  | EModCall b f es => pp_is_chain b && pp_wf b && pp_is_ident f && forallb pp_wf es
+  | EAttr b a => pp_wf b && pp_is_ident a
+  | EModCall b f es => pp_wf b && pp_is_ident f && forallb pp_wf es
   | EItem b i => pp_wf b && pp_wf i
   | EUn _ a => pp_wf a
   | EBin _ l r => pp_wf l && pp_wf r
@@ -154,11 +166,11 @@ Fixpoint pp_render (q : byte) (sp : nat -> bytes) (i : nat) (ts : list xtok) : b
   end.
 
 (* raw string content that the lexer reads back as one literal delimited by q: every q inside is
-   preceded by a backslash and the content does not end with a backslash *)
+   escaped (preceded by an odd run of backslashes) and the closing quote is not *)
 Fixpoint pp_raw_ok (q : byte) (pb : bool) (v : bytes) : bool :=
   match v with
   | [] => negb pb
-  | c :: r => (if Byte.eqb c q then pb else true) && pp_raw_ok q (xl_is_bsl c) r
+  | c :: r => (if Byte.eqb c q then pb else true) && pp_raw_ok q (xl_esc_next pb c) r
   end.
 
 Definition pp_tok_ok (q : byte) (t : xtok) : bool :=
